@@ -496,6 +496,18 @@ class Exec:
     def st_Import(self, s):
         raise Unsupported("import inside function")
 
+    def st_ImportFrom(self, s):
+        """`from module import Name` inside a function: binds names that the contracts know (classes
+        declared for the property, functions under contract); anything else is outside the subset."""
+        for a in s.names:
+            nm = a.asname or a.name
+            if a.name in self.prop.classes:
+                self.env.set(nm, ClassV(a.name))
+            elif self.prop.lookup_callee(a.name, self.relfile) is not None:
+                self.env.set(nm, FnV(name=a.name, qual=a.name))
+            else:
+                raise Unsupported(f"local import of {a.name}, which the contracts do not declare")
+
     def st_FunctionDef(self, s):
         self.env.set(s.name, FnV(node=s, env=self.env, name=s.name))
 
@@ -530,9 +542,47 @@ class Exec:
             name = ast.unparse(e.func)
         elif isinstance(e, ast.Name):
             name = e.id
+            try:
+                v = self.env.get(e.id)
+                if isinstance(v, ExcV):
+                    name = v.exc  # re-raise of a caught exception
+            except KeyError:
+                pass
         else:
             raise Unsupported("raise of a computed object")
         raise RaiseEx(name.split(".")[-1], s.lineno)
+
+    def st_Try(self, s):
+        """try / except: exceptions raised by statements of the body (RaiseEx: explicit raises, failing
+        lookups, asserts) are matched against the handlers by class name (a handler for a base class
+        listed in prop.exc_parents also matches).  Exceptions inside callees under contract are not
+        modelled (contracts describe normal returns), so a handler whose only sources are calls is
+        never entered: it can then only rename / annotate an exception that propagates anyway."""
+        if s.finalbody:
+            raise Unsupported("try ... finally")
+        try:
+            self.exec_block(s.body)
+        except RaiseEx as r:
+            for h in s.handlers:
+                if h.type is None:
+                    names = None
+                elif isinstance(h.type, ast.Tuple):
+                    names = [ast.unparse(x).split(".")[-1] for x in h.type.elts]
+                else:
+                    names = [ast.unparse(h.type).split(".")[-1]]
+                anc, frontier = {r.exc}, [r.exc]
+                while frontier:
+                    for par in self.prop.exc_parents.get(frontier.pop(), []):
+                        if par not in anc:
+                            anc.add(par)
+                            frontier.append(par)
+                if names is None or anc & set(names) or "Exception" in names or "BaseException" in names:
+                    if h.name:
+                        self.env.set(h.name, ExcV(r.exc))
+                    self.exec_block(h.body)
+                    return
+            raise
+        self.exec_block(s.orelse)
 
     def st_If(self, s):
         if self.decide(self.truth(self.eval(s.test))):
@@ -1036,6 +1086,14 @@ class Exec:
         return self.eval(e.orelse)
 
     def ev_BoolOp(self, e):
+        if self.in_comprehension:
+            # no path split inside a comprehension body: all operands are evaluated (obligations of a
+            # later operand are then required unconditionally, which is stronger than Python's
+            # short-circuit needs) and combined when they are all truth values
+            vals = [lift(self.eval(sub)) for sub in e.values]
+            if all(is_bool(v) for v in vals):
+                return z3.And(*vals) if isinstance(e.op, ast.And) else z3.Or(*vals)
+            raise Unsupported("and/or of non-boolean operands inside a comprehension")
         # short-circuit with Python value semantics
         last = None
         for i, sub in enumerate(e.values):
@@ -1188,7 +1246,12 @@ class Exec:
                 if not z3.is_quantifier(y):
                     self.assume(V.qforall([i], tr(z3.Select(m, i + a.n)), patterns=[z3.Select(y, i)]))
                 arrs.append(m)
-            return SeqV(a.shape, arrs if len(arrs) > 1 else arrs[0], a.n + b.n)
+            r = SeqV(a.shape, arrs if len(arrs) > 1 else arrs[0], a.n + b.n)
+            if len(arrs) == 1:
+                # membership in a concatenation (a consequence of the definitions, stated with a pattern)
+                y = z3.Const(fresh_name("cy"), arrs[0].sort().range())
+                self.assume(V.qforall([y], self.seq_mem(r, y) == z3.Or(self.seq_mem(a, y), self.seq_mem(b, y)), patterns=[self.seq_mem(r, y)]))
+            return r
         if isinstance(op, ast.Mult) and isinstance(a, SeqV) and a.n.eq(z3.IntVal(1)):
             # [x] * n
             n = to_num(b)
@@ -1573,7 +1636,7 @@ class Exec:
         return obj
 
     def call_method(self, recv, name, args, kwargs, node):
-        c = self.prop.lookup_method(recv.cls, name, self.relfile)
+        c = self.prop.lookup_method(None if recv.cls == "?" else recv.cls, name, self.relfile)
         if c is None:
             raise Unsupported(f"method {recv.cls}.{name} has no contract")
         if c.is_static():
@@ -1701,6 +1764,13 @@ def _has_quantifier(f):
             return True
         stack.extend(t.children())
     return False
+
+
+class ExcV:
+    """A caught exception object (only its class name is modelled)."""
+
+    def __init__(self, exc):
+        self.exc = exc
 
 
 class EmptySeq:
